@@ -164,6 +164,10 @@ def run : List String → String
         if ws.panicked then "panic" else s ++ " rl=" ++ toString ws.rl
     | _, _, _ => "bad-op"
   | ["shadow", expected, _] => expected     -- what the harness encoded is what must be read
+  | ["reuse", _, _, segs] =>     -- a reused Message / Decoder: the second message means what its own bytes mean
+    match parseSegs segs with
+    | some sg => Capnp.Spec.Encoding.decodeTree sg
+    | none => "bad-op"
   | ["tree", segs] =>            -- the spec's meaning of the bytes (independent decoder)
     match parseSegs segs with
     | some sg => Capnp.Spec.Encoding.decodeTree sg
